@@ -10,7 +10,8 @@ MISSED_FIRST = set('''C01-3 C01-4 C02-3 C02-4 C03-3 C03-4 C04-3 C04-4 C05-3 C05-
 C17-4 C18-4 C19-3 C20-3 C20-4
 C01-5 C02-6 C04-5 C05-5 C07-5 C07-6 C10-5 C10-6 C12-5 C12-6 C13-5 C15-5 C16-5 C16-6 C18-5 C18-6 C19-5 C19-6 C20-5 C20-6
 C02-7 C02-8 C03-8 C06-7 C06-8 C08-7 C08-8 C09-7 C10-7 C10-8 C11-7 C11-8 C12-7 C13-7 C13-8 C15-7 C17-7 C17-8 C18-7 C19-7 C20-7
-C01-10 C05-9 C05-10 C06-9 C07-9 C10-10 C11-10 C13-9 C14-10 C15-10 C16-10 C17-9 C19-9 C20-10 C02-9 C08-10 C12-10 C13-10 C20-9'''.split())
+C01-10 C05-9 C05-10 C06-9 C07-9 C10-10 C11-10 C13-9 C14-10 C15-10 C16-10 C17-9 C19-9 C20-10 C02-9 C08-10 C12-10 C13-10 C20-9
+C12-11 C17-11 C19-11'''.split())
 INCONCLUSIVE_FIRST = {'C03-3', 'C04-3', 'C14-4', 'C16-3', 'C18-4', 'C05-5', 'C11-8', 'C02-9', 'C08-10', 'C12-10', 'C13-10', 'C20-9'}
 OTHER_FIRST = {'C02-10': '**missed** by C02 (no misbehaving-responder harness there); caught by C11, whose subject it is',
                'C10-9': 'caught (on the tree before the F25 repair; does not apply afterwards)',
@@ -26,12 +27,12 @@ def first_sentence(notes):
 
 
 def main():
-    for rnd, nums in (('round 2', (3, 4)), ('round 3', (5, 6)), ('round 4', (7, 8)), ('round 5', (9, 10))):
-        print(f'\n**{rnd}** (variants {nums[0]} and {nums[1]} of every property)\n')
+    for rnd, nums in (('round 2', (3, 4)), ('round 3', (5, 6)), ('round 4', (7, 8)), ('round 5', (9, 10)), ('round 6', (11, 11))):
+        print(f'\n**{rnd}** (variant' + (f's {nums[0]} and {nums[1]}' if nums[0] != nums[1] else f' {nums[0]}') + ' of every property)\n')
         print('| seed | what it changes (author\'s words, shortened) | first evaluation | now: check, exit, first counterexample |')
         print('|---|---|---|---|')
         for p in range(1, 21):
-            for n in nums:
+            for n in sorted(set(nums)):
                 s = f'C{p:02d}-{n}'
                 d = os.path.join(V, 'seeded', s)
                 if not os.path.exists(os.path.join(d, 'meta.json')):
